@@ -134,6 +134,8 @@ struct ClientPlan
 	std::size_t read_size = 65536;
 	std::string expect;           // bytes the client must receive (T_REACH)
 	bool closes_early = false;    // origin closes before all responses are out
+	int abort_piece = -1;         // >= 0: the client hangs up after releasing this piece (opt-in extension, --abort 1)
+	std::int64_t abort_delay = 0;
 	std::string str() const;
 };
 
@@ -151,6 +153,7 @@ std::string ClientPlan::str() const
 	}
 	s += fmt(" end=%s next=%s", end_mode ? "on-complete" : "quiescence", next_delay < 0 ? "quiescence" : fmt("+%" PRId64 "us", next_delay / 1000).c_str());
 	if (closes_early) s += " origin-closes-early";
+	if (abort_piece >= 0) s += fmt(" CLIENT-HANGS-UP after piece %d +%" PRId64 "us", abort_piece, abort_delay / 1000);
 	s += " [";
 	for (std::size_t i = 0; i < reqs.size(); ++i) s += (i ? " | " : "") + reqs[i].what;
 	s += "]";
@@ -534,6 +537,20 @@ struct World
 		ClientPlan& p = plans[std::size_t(i)];
 		while (!c.ended && c.piece < p.bounds.size())
 		{
+			if (p.abort_piece >= 0 && int(c.piece) > p.abort_piece)
+			{
+				if (p.abort_delay == 0) { c.self_closed = true; end_client(i); return; }
+				API(c.timer->expires_after(duration(p.abort_delay)));
+				OpPtr op = ops.make("timer.wait", i);
+				API(c.timer->async_wait(track1(op, [this, i](error_code const& ec) {
+					Cli& c2 = *cli[std::size_t(i)];
+					if (ec || c2.ended) return;
+					VLOG("[%" PRId64 "] client %d: hangs up", now_ns(), i);
+					c2.self_closed = true;
+					end_client(i);
+				})));
+				return;
+			}
 			std::int64_t const gap = p.gaps[c.piece];
 			if (gap > 0)
 			{
@@ -747,6 +764,8 @@ Req make_invalid(int tail, int sub, std::string const& authority)
 			case 0: q.raw = "NOSPACESATALL\r\n\r\n"; q.what = "malformed:no-spaces"; break;
 			case 1: q.raw = "GET http://" + authority + "/x\r\nhost:a\r\n\r\n"; q.what = "malformed:no-version"; break;
 			case 2: q.raw = "GET http://" + authority + "/x HTTP/1.1\r\nthis-header-has-no-colon\r\n\r\n"; q.what = "malformed:header-without-colon"; break;
+			case 4: q.raw = "GET http://10.0.0.3:65536/x HTTP/1.1\r\n\r\n"; q.what = "malformed:port-65536"; break;
+			case 5: q.raw = "GET http://origin1.test:70000/x HTTP/1.1\r\n\r\n"; q.what = "malformed:port-70000"; break;
 			default: q.raw = "GET\r\n\r\n"; q.what = "malformed:method-only"; break;
 		}
 	}
@@ -1050,6 +1069,13 @@ void evaluate(World& w)
 			continue;
 		}
 		if (c.rx_overflow) w.viol("relay-flood", who + ": more than 8 MB received");
+		if (p.abort_piece >= 0)
+		{
+			// a client that hangs up in the middle: nothing is promised to it, everything to the next one
+			R().count("clients_hanging_up_midway");
+			prev = kind_name(p) + "+client-hangs-up"; prev_error_kind = true;
+			continue;
+		}
 		if (c.w_failed && !c.ended_by_peer && p.tail == TL_NONE && p.target == T_REACH)
 			w.viol("client-write-failed", who + ": writing the request stream failed although the proxy did not close the connection");
 
@@ -1189,6 +1215,9 @@ std::vector<Scen> const& scenarios()
 		{"refused-pipe2", T_REFUSED, TL_NONE, H_V4, "10.0.0.3", 9999, {"GET http://10.0.0.3:9999/ HTTP/1.1\r\n\r\n", "GET http://10.0.0.3:9999/2 HTTP/1.1\r\n\r\n"}},
 		{"unresolvable-pipe2", T_UNRESOLVABLE, TL_NONE, H_NAME, "nx.test", 8080, {"GET http://nx.test:8080/ HTTP/1.1\r\n\r\n", "GET http://nx.test:8080/2 HTTP/1.1\r\n\r\n"}},
 		{"named+malformed", T_REACH, TL_MALFORMED, H_NAME, "a", 8080, {"GET http://a:8080/ HTTP/1.1\r\n\r\n", "BAD\r\n\r\n"}},
+		{"single-v4-port-65535", T_REACH, TL_NONE, H_V4, "10.0.0.3", 65535, {"GET http://10.0.0.3:65535/ HTTP/1.1\r\n\r\n"}},
+		{"defport-v6", T_DEFPORT, TL_NONE, H_V6, "[2001:db8::6]", 0, {"GET http://[2001:db8::6]/ HTTP/1.1\r\n\r\n"}},
+		{"port-out-of-range", T_REACH, TL_MALFORMED, H_V4, "10.0.0.3", 8080, {"GET http://10.0.0.3:70000/ HTTP/1.1\r\n\r\n"}},
 	};
 	return s;
 }
@@ -1229,7 +1258,7 @@ void case_cuts(Args const& a, std::uint64_t c)
 	Rng prm(hcomb(hcomb(a.seed, 0xC18C), si));
 	Rng rng(hcomb(hcomb(a.seed, 0xC18D), c));
 	World w(a, rng);
-	Setup s; s.ports1 = {8080}; s.ports2 = {8081};
+	Setup s; s.ports1 = {8080, 65535}; s.ports2 = {8081};
 	base_world(w, s, true);
 	static std::vector<std::int64_t> const lats = {0, 1000000, 10000000};
 	static std::vector<std::int64_t> const gapv = {1000, 2000000, 30000000, 60000000};
@@ -1257,10 +1286,11 @@ void case_cuts(Args const& a, std::uint64_t c)
 		if (sc.hk == H_NAME) { p.name = sc.host; w.names_used.insert(p.name); }
 		p.origin = sc.hk == H_V6 ? 1 : 0;
 		p.addr_text = sc.hk == H_V6 ? "2001:db8::6" : "10.0.0.3";
-		p.why503 = sc.target == T_DEFPORT ? "default-port-v4-literal" : sc.target == T_REFUSED ? "no-listener-on-port" : "name-not-found";
+		p.why503 = sc.target == T_DEFPORT ? (sc.hk == H_V6 ? "default-port-v6-literal" : "default-port-v4-literal") : sc.target == T_REFUSED ? "no-listener-on-port" : "name-not-found";
 		for (std::size_t i = 0; i < sc.reqs.size(); ++i)
 		{
 			Req rq = parse_fixed(sc.reqs[i]);
+			if (sc.tail != TL_NONE && i + 1 == sc.reqs.size()) { rq.valid = false; rq.what = "invalid: " + printable(sc.reqs[i], 40); }
 			if (rq.valid) rq.resp = make_resp(a.seed, 0, int(i), i == 0 ? 300 : 2000);
 			p.reqs.push_back(rq);
 		}
@@ -1333,7 +1363,7 @@ void case_random(Args const& a, std::uint64_t c)
 			random_resp(w, q, ci, ri, big_ok);
 			p.reqs.push_back(q);
 		}
-		if (p.tail != TL_NONE) p.reqs.push_back(make_invalid(p.tail, rng.choose(4), authority_of(p)));
+		if (p.tail != TL_NONE) p.reqs.push_back(make_invalid(p.tail, p.tail == TL_MALFORMED ? rng.choose(6) : rng.choose(4), authority_of(p)));
 		// an origin that closes early (only meaningful when reachable)
 		if (p.target == T_REACH && p.tail == TL_NONE && rng.coin(1, 7))
 		{
@@ -1354,6 +1384,12 @@ void case_random(Args const& a, std::uint64_t c)
 		static std::vector<std::size_t> const rs = {65536, 65536, 4096, 1475, 100, 1};
 		p.read_size = rng.pick(rs);
 		if (p.read_size == 1 && p.expect.size() > 20000) p.read_size = 100;
+		if (a.geti("abort", 0) && p.bounds.size() > 1 && rng.coin(1, 5))
+		{
+			p.abort_piece = rng.choose(int(p.bounds.size()) - 1);
+			static std::vector<std::int64_t> const ad = {0, 1000, 3000000, 40000000, 200000000};
+			p.abort_delay = rng.pick(ad);
+		}
 		d += fmt(" | c%d ", ci) + p.str();
 		for (auto const& q : p.reqs) if (q.valid) R().count("requests_sent");
 	}
